@@ -43,6 +43,10 @@ def gen_part(rng, tok, p_exc=0.0, kinds=("fail", "error"), p_write=0.3):
             tok[0] += 1
     if rng.random() < p_exc:
         part["exc"] = rng.choice(kinds)
+    if part["writes"] and rng.random() < 0.15:
+        part["rawbytes"] = True
+    if rng.random() < 0.3:
+        part["excStyle"] = rng.choice(["cause", "context", "unhashable", "unhashable-cause"])
     return part
 
 
@@ -135,6 +139,7 @@ def gen_layers(rng, n, with_unit=True, p_fault=0.25, allow_notimpl=True):
         if kind == "class" and bases:
             # a class layer inherits the hooks of its base classes (hasattr is true): give it its own
             lay["setUp"] = lay["tearDown"] = lay["testSetUp"] = lay["testTearDown"] = True
+        lay["excStyle"] = rng.choice([None, None, "cause", "context", "unhashable", "unhashable-cause"])
         if lay["setUp"] and rng.random() < p_fault * 0.5:
             lay["setUpRaises"] = rng.choice([[0], [0], [1], [999999]])
         if lay["tearDown"] and rng.random() < p_fault:
